@@ -15,7 +15,9 @@ the NumPy leaf (`Q₀ᵀQ₀ = I`, resp. `L₀ · L₀⁻¹ = I`):
 
 That the implementation's output satisfies these step equations is evaluated in the C08 run on every
 generated case (the tie of the theorem's hypotheses to the code), next to the residuals of all
-defining equations.  Not proved (partial): triangularity of `R_d`/`L_d`, tall / wide / full QR, LU,
+defining equations.  `lu_defining_equation`: the step of `UTPM.lu`/`lu2` (`F = L₀⁻¹(WᵀA_d − Σ L_{d-i}U_i)U₀⁻¹`,
+`U_d = triu(F)U₀`, `L_d = L₀ tril(F,-1)`) gives `Σ_{k≤d} L_k U_{d-k} = (WᵀA)_d`, with the masks strictly lower /
+upper by construction.  Not proved (partial): triangularity of `R_d`, tall / wide / full QR,
 `eigh` (distinct and repeated eigenvalues), `eig`, `svd` — checked by residuals on the implementation.
 -/
 open Matrix AV.Factor
@@ -40,6 +42,15 @@ theorem cholesky_defining_equation (lt : n → n → Prop) [DecidableRel lt]
     (hinv : L 0 * L0inv = 1) (hA : (A d)ᵀ = A d) (st : CholStep lt A L L0inv d) :
     ∑ k ∈ Finset.range (d + 1), L k * (L (d - k))ᵀ = A d :=
   chol_eq lt htri hasym hirr A L L0inv d hd hinv hA st
+
+theorem lu_defining_equation (lt : n → n → Prop) [DecidableRel lt] (B L U : ℕ → Matrix n n K) (L0inv U0inv : Matrix n n K)
+    (d : ℕ) (hd : 1 ≤ d) (hL0 : L 0 * L0inv = 1) (hU0 : U0inv * U 0 = 1) (st : LUStep lt B L U L0inv U0inv d) :
+    ∑ k ∈ Finset.range (d + 1), L k * U (d - k) = B d := lu_eq lt B L U L0inv U0inv d hd hL0 hU0 st
+
+/-- the masks used by the LU step: `tril(F,-1)` vanishes on and above the diagonal, `triu(F)` below it -/
+theorem lu_masks (lt : n → n → Prop) [DecidableRel lt] (M : Matrix n n K) (i j : n) :
+    (¬ lt j i → PL lt M i j = 0) ∧ (lt j i → PU lt M i j = 0) :=
+  ⟨PL_strict lt M i j, PU_upper lt M i j⟩
 
 /-- non-vacuity: the order relation hypotheses are met by `<` on `Fin 3` -/
 example : (∀ i j : Fin 3, i < j ∨ i = j ∨ j < i) ∧ (∀ i j : Fin 3, i < j → ¬ j < i) ∧ (∀ i : Fin 3, ¬ i < i) := by
